@@ -93,3 +93,43 @@ theorem tie_C10_packet_deadline_no_timeout (now : Nat) (ctxDeadline : Option Nat
     Generated.Trans.Client.packetDeadline now 0 ctxDeadline = ctxDeadline := by
   unfold Generated.Trans.Client.packetDeadline
   cases ctxDeadline <;> simp [Model.Timing.before]
+
+/-! ### the C04 clauses read off the translated functions themselves -/
+
+/-- a `flush` that fails leaves nothing queued: either the context was already dead (the pending output is discarded, the
+connection untouched) or a write failed (the writer is reset by `Flush` and the client is closed) -/
+theorem tie_C04_translated_flush_failure (s : St) (fail : Option Bool) (connErr : Bool)
+    (h : (Generated.Trans.Client.flush s fail connErr).2 = true) :
+    (Generated.Trans.Client.flush s fail connErr).1.pending = 0 ∧
+      (s.ctxDead = true ∨ (Generated.Trans.Client.flush s fail connErr).1.closed = true) := by
+  unfold Generated.Trans.Client.flush at h ⊢
+  simp only [tie_C04_close] at h ⊢
+  cases hc : s.ctxDead
+  · cases hcl : s.closed <;> cases fail <;> simp_all [writerFlush, writerReset]
+  · simp [writerReset]
+
+/-- a `flush` that succeeds wrote everything that was pending and left the client open iff it was open -/
+theorem tie_C04_translated_flush_success (s : St) (fail : Option Bool) (connErr : Bool)
+    (h : (Generated.Trans.Client.flush s fail connErr).2 = false) :
+    (Generated.Trans.Client.flush s fail connErr).1.pending = 0 ∧
+      (Generated.Trans.Client.flush s fail connErr).1.closed = s.closed ∧ fail = none ∧ s.ctxDead = false := by
+  unfold Generated.Trans.Client.flush at h ⊢
+  simp only [tie_C04_close] at h ⊢
+  cases hc : s.ctxDead
+  · cases hcl : s.closed <;> cases fail <;> simp_all [writerFlush, writerReset]
+  · simp_all [writerReset]
+
+/-- after `cancelQuery` the client is closed, whatever the connection did to the Cancel write and to `Close` -/
+theorem tie_C10_translated_cancel_closes (s : St) (connErr : Bool) :
+    (Generated.Trans.Client.cancelQuery s connErr).closed = true := by
+  unfold Generated.Trans.Client.cancelQuery flushBufP
+  cases hcl : s.closed <;> simp [tie_C04_close]
+
+/-- what `Do` does after a failed `g.Wait()`: the client ends up closed, or a server exception had ended the query and
+nothing of it is left in the writer -/
+theorem tie_C04_translated_after_wait (s : St) (connErr : Bool) :
+    (Generated.Trans.Client.afterWaitFailed s connErr).closed = true ∨
+      (s.gotExc = true ∧ (Generated.Trans.Client.afterWaitFailed s connErr).pending = 0) := by
+  unfold Generated.Trans.Client.afterWaitFailed
+  simp only [tie_C04_isClosed, tie_C04_close, writerReset]
+  cases hcl : s.closed <;> cases hg : s.gotExc <;> simp [hcl]
